@@ -243,6 +243,94 @@ example : depth1Only depth1Prog.lits = true := by decide
 example : observe (Impl 20 depth1Prog) = .inl (some 6) := by decide
 example : depth1Only witnessProg.lits = false := by decide
 
+/-! ## Every statement form that reads or writes a variable goes through the same cells
+
+The compiler has three `LoadFree` sites (identifier, compound assignment, postfix) and four
+`StoreFree` sites (`=`, compound assignment, postfix, tuple assignment).  In the model every one
+of them is a `Ref.free i` produced by the one resolver `resolveName`, and `loadRef`/`storeRef`
+on `Ref.free i` use cell `i` of the running closure — the cell `makeCells` built for the `i`-th
+free entry.  The harness compares this with the real compiler + VM for each form. -/
+
+/-- **`StoreFree i` writes cell `i`**: whatever statement form emitted it, a store to the
+    `i`-th free variable of the running closure writes the binding its `i`-th cell names (for
+    every state, index and value) -/
+theorem store_free_hits_indexed_cell (s : St) (a : Act) (i : Nat) (c : Nat × Nat) (v : Val)
+    (ha : s.acts[curAct s]? = some a) (hc : a.cells[i]? = some c) :
+    storeRef (.free i) v s = (.ok (), writeCell s c v) := by
+  simp only [storeRef, ha, Option.bind_some, hc]
+
+/-- **`LoadFree i` reads cell `i`** (a defined value; a never-written Go-nil slot is outside the model) -/
+theorem load_free_reads_indexed_cell (s : St) (a : Act) (i : Nat) (c : Nat × Nat) (v : Val)
+    (ha : s.acts[curAct s]? = some a) (hc : a.cells[i]? = some c) (hv : readCell s c = some v)
+    (hdef : v ≠ .undef) :
+    loadRef (.free i) s = (.ok v, s) := by
+  simp only [loadRef, ha, Option.bind_some, hc, hv]
+
+/-- **`Unpack` stores run one after the other**, in the order `storeRefs` is given (the
+    evaluator passes the targets from the last name to the first); the first failing store ends it -/
+theorem unpack_stores_last_to_first (r : Ref) (v : Val) (rest : List (Ref × Val)) (s : St) :
+    storeRefs ((r, v) :: rest) s =
+      match storeRef r v s with
+      | (.ok _, s') => storeRefs rest s'
+      | (.error e, s') => (.error e, s') := by
+  simp only [storeRefs, bind]
+  cases storeRef r v s with
+  | mk a s' => cases a <;> rfl
+
+/-- **`x += e` / `x -= e` resolve `x` once**: for every name, value term and resolver state
+    the load before the value and the store after it use the SAME reference (same free index,
+    hence the same cell) -/
+theorem compound_assign_one_reference (n : Nat) (x : String) (sub : Bool) (e : Tm) (rs rs' : RS) (t : RTm)
+    (h : resolveTm (n + 1) (.opassign x sub e) rs = .ok (t, rs')) :
+    ∃ r e', t = .store r (if sub then .sub (.load r) e' else .add (.load r) e') := by
+  simp only [resolveTm, bind, Except.bind] at h
+  split at h
+  · cases h
+  · rename_i p hp
+    obtain ⟨r, rs1⟩ := p
+    simp only at h
+    split at h
+    · cases h
+    · rename_i q hq
+      obtain ⟨e', rs2⟩ := q
+      simp only [pure, Except.pure, Except.ok.injEq, Prod.mk.injEq] at h
+      exact ⟨r, e', h.1.symm⟩
+
+/-- **`a, b, … = e` resolves every name**: the tuple assignment becomes one `unpack` with
+    exactly one reference per name on the left (each produced by `resolveName`, so a captured
+    target is a `Ref.free` with its own free index — not its slot in the defining function) -/
+theorem tuple_assign_one_reference_per_name (n : Nat) (xs : List String) (e : Tm) (rs rs' : RS) (t : RTm)
+    (h : resolveTm (n + 1) (.massign xs e) rs = .ok (t, rs')) :
+    ∃ refs e', t = .unpack refs e' ∧ refs.length = xs.length := by
+  simp only [resolveTm, bind, Except.bind] at h
+  split at h
+  · cases h
+  · rename_i p hp
+    obtain ⟨e', rs1⟩ := p
+    simp only at h
+    split at h
+    · cases h
+    · rename_i q hq
+      obtain ⟨refs, rs2⟩ := q
+      simp only [pure, Except.pure, Except.ok.injEq, Prod.mk.injEq] at h
+      refine ⟨refs.reverse, e', h.1.symm, ?_⟩
+      rw [List.length_reverse, resolveNames_length _ _ _ _ hq, List.length_reverse]
+
+/-- the targets of an `unpack` statement -/
+def unpackTargets : RTm → List Ref
+  | .unpack rs _ => rs
+  | _ => []
+
+/-- non-vacuity and the index distinction: inside `func() { lo, hi = [hi, lo] }` nested in a
+    function with locals `seed lo hi` (slots 0 1 2) the targets are free entries 3 and 2 of the
+    literal (after the two reads), not slots 1 and 2 -/
+example :
+    (resolveTm 10 (.fn "_" [] [.massign ["lo", "hi"] (.list [.var "hi", .var "lo"])])
+      { lits := [], globals := [],
+        scopes := [{ fnTab := [("seed", 0)], bodyTab := [("hi", 2), ("lo", 1)], count := 3, frees := [] }] }).toOption.map
+      (fun p => (p.2.lits.map (fun l => l.body.map unpackTargets), p.2.lits.map (·.frees)))
+    = some ([[[.free 3, .free 2]]], [[(2, 0), (1, 0), (2, 0), (1, 0)]]) := by decide
+
 /-! ## What Spec means, cells, the self slot -/
 
 /-- **Spec is lexical**: in `Mode.lexical` every cell made for a literal points into the
